@@ -242,6 +242,65 @@ theorem link_forest (cfg : Cfg) (ls : List Str) : Forest (link cfg ls) := forest
 /-- passes 1–3 neither add, drop nor reorder lines -/
 theorem link_texts (cfg : Cfg) (ls : List Str) : (link cfg ls).texts.length = ls.length := (inv_link cfg ls).1
 
+/-- passes 1–3 keep the line texts -/
+theorem link_texts_eq (cfg : Cfg) (ls : List Str) : (link cfg ls).texts = ls := by
+  have h : ∀ (t : T), (markMacros cfg (markBanners t)).texts = t.texts := by
+    intro t
+    have hb : ∀ (l : List Str) (i : Nat) (t : T), (markBannersFrom i l t).texts = t.texts := by
+      intro l
+      induction l with
+      | nil => intro i t; rfl
+      | cons txt rest ih =>
+        intro i t
+        simp only [markBannersFrom]
+        rw [ih]
+        split
+        · unfold markBanner
+          have hw : ∀ (rest : List Str) (d : Char) (p idx : Nat) (t : T),
+              (bannerWalk d p idx rest t).texts = t.texts := by
+            intro rest
+            induction rest with
+            | nil => intros; rfl
+            | cons x xs ih2 =>
+              intro d p idx t
+              simp only [bannerWalk]
+              split
+              · rfl
+              · rw [ih2]; rfl
+          split
+          · rfl
+          · split
+            · rfl
+            · rw [hw]; rfl
+        · rfl
+    have hm : ∀ (l : List Str) (i : Nat) (t : T), (markMacrosFrom i l t).texts = t.texts := by
+      intro l
+      induction l with
+      | nil => intro i t; rfl
+      | cons txt rest ih =>
+        intro i t
+        simp only [markMacrosFrom]
+        rw [ih]
+        split
+        · have hw : ∀ (rest : List Str) (p idx : Nat) (t : T),
+              (macroWalk p idx rest t).texts = t.texts := by
+            intro rest
+            induction rest with
+            | nil => intros; rfl
+            | cons x xs ih2 =>
+              intro p idx t
+              simp only [macroWalk]
+              split
+              · rfl
+              · rw [ih2]; rfl
+          rw [hw]; rfl
+        · rfl
+    unfold markMacros markBanners
+    split
+    · rw [hm, hb]
+    · rw [hb]
+  exact h _
+
 theorem bootstrapFuel_forest (cfg : Cfg) (fuel : Nat) (ls : List Str) : Forest (bootstrapFuel cfg fuel ls) := by
   induction fuel generalizing ls with
   | zero => exact link_forest cfg ls
@@ -255,5 +314,484 @@ theorem bootstrapFuel_forest (cfg : Cfg) (fuel : Nat) (ls : List Str) : Forest (
 
 theorem bootstrap_forest (cfg : Cfg) (ls : List Str) : Forest (bootstrap cfg ls) :=
   bootstrapFuel_forest cfg _ ls
+
+/-! ## part 2: derived child lists -/
+
+theorem mem_children {t : T} {i j : Nat} :
+    j ∈ children t i ↔ j < t.size ∧ parentOf t j = i ∧ j ≠ i := by
+  simp only [children, List.mem_filter, List.mem_range, Bool.and_eq_true, bne_iff_ne, beq_iff_eq]
+  constructor
+  · rintro ⟨a, b, c⟩; exact ⟨a, c, b⟩
+  · rintro ⟨a, b, c⟩; exact ⟨a, c, b⟩
+
+theorem children_sorted (t : T) (i : Nat) : (children t i).Pairwise (· < ·) :=
+  List.Pairwise.filter _ List.pairwise_lt_range
+
+theorem nodup_of_sorted {l : List Nat} (h : l.Pairwise (· < ·)) : l.Nodup :=
+  h.imp (fun hab => Nat.ne_of_lt hab)
+
+/-! ## ancestors -/
+
+theorem ancestors_of_lt {t : T} {j : Nat} (h : parentOf t j < j) :
+    ancestors t j = parentOf t j :: ancestors t (parentOf t j) := by
+  rw [ancestors]; simp [h]
+
+theorem ancestors_of_not_lt {t : T} {j : Nat} (h : ¬ parentOf t j < j) : ancestors t j = [] := by
+  rw [ancestors]; simp [h]
+
+theorem ancestors_lt {t : T} {a j : Nat} (h : a ∈ ancestors t j) : a < j := by
+  induction j using Nat.strongRecOn with
+  | ind j ih =>
+    by_cases hp : parentOf t j < j
+    · rw [ancestors_of_lt hp] at h
+      rcases List.mem_cons.mp h with rfl | h
+      · exact hp
+      · have := ih _ hp h; omega
+    · rw [ancestors_of_not_lt hp] at h; cases h
+
+/-- the chain is strictly descending -/
+theorem ancestors_desc (t : T) (j : Nat) : (ancestors t j).Pairwise (· > ·) := by
+  induction j using Nat.strongRecOn with
+  | ind j ih =>
+    by_cases hp : parentOf t j < j
+    · rw [ancestors_of_lt hp]
+      exact List.pairwise_cons.mpr ⟨fun a ha => ancestors_lt ha, ih _ hp⟩
+    · rw [ancestors_of_not_lt hp]; exact List.Pairwise.nil
+
+theorem ancestors_trans {t : T} {a b c : Nat} (hab : a ∈ ancestors t b) (hbc : b ∈ ancestors t c) :
+    a ∈ ancestors t c := by
+  induction c using Nat.strongRecOn with
+  | ind c ih =>
+    by_cases hp : parentOf t c < c
+    · rw [ancestors_of_lt hp] at hbc ⊢
+      rcases List.mem_cons.mp hbc with rfl | hbc
+      · exact List.mem_cons_of_mem _ hab
+      · exact List.mem_cons_of_mem _ (ih _ hp hbc)
+    · rw [ancestors_of_not_lt hp] at hbc; cases hbc
+
+theorem isAncestor_of_mem {t : T} {a j : Nat} (h : a ∈ ancestors t j) : IsAncestor t a j := by
+  induction j using Nat.strongRecOn with
+  | ind j ih =>
+    by_cases hp : parentOf t j < j
+    · rw [ancestors_of_lt hp] at h
+      rcases List.mem_cons.mp h with rfl | h
+      · exact .parent (by omega)
+      · exact .step (by omega) (ih _ hp h)
+    · rw [ancestors_of_not_lt hp] at h; cases h
+
+theorem mem_of_isAncestor {t : T} (hf : Forest t) {a j : Nat} (h : IsAncestor t a j) : a ∈ ancestors t j := by
+  induction h with
+  | @parent j hne =>
+    have := parentOf_le_of_forest hf j
+    rw [ancestors_of_lt (by omega)]; simp
+  | @step a j hne _ ih =>
+    have := parentOf_le_of_forest hf j
+    rw [ancestors_of_lt (by omega)]; exact List.mem_cons_of_mem _ ih
+
+/-- the top-down reading of the chain: below a proper ancestor `i` of `j` there is a child
+of `i` that is `j` or an ancestor of `j` -/
+theorem ancestors_child {t : T} {i j : Nat} (h : i ∈ ancestors t j) :
+    ∃ c, parentOf t c = i ∧ i < c ∧ (c = j ∨ c ∈ ancestors t j) := by
+  induction j using Nat.strongRecOn with
+  | ind j ih =>
+    by_cases hp : parentOf t j < j
+    · rw [ancestors_of_lt hp] at h
+      rcases List.mem_cons.mp h with rfl | h
+      · exact ⟨j, rfl, hp, .inl rfl⟩
+      · obtain ⟨c, hc1, hc2, hc3⟩ := ih _ hp h
+        refine ⟨c, hc1, hc2, .inr ?_⟩
+        rw [ancestors_of_lt hp]
+        rcases hc3 with rfl | hc3
+        · simp
+        · exact List.mem_cons_of_mem _ hc3
+    · rw [ancestors_of_not_lt hp] at h; cases h
+
+/-- two lines on the chain of `j` are comparable -/
+theorem ancestors_linear {t : T} {a b j : Nat} (ha : a ∈ ancestors t j) (hb : b ∈ ancestors t j) :
+    a = b ∨ a ∈ ancestors t b ∨ b ∈ ancestors t a := by
+  induction j using Nat.strongRecOn with
+  | ind j ih =>
+    by_cases hp : parentOf t j < j
+    · rw [ancestors_of_lt hp] at ha hb
+      rcases List.mem_cons.mp ha with rfl | ha <;> rcases List.mem_cons.mp hb with rfl | hb
+      · exact .inl rfl
+      · exact .inr (.inr hb)
+      · exact .inr (.inl ha)
+      · exact ih _ hp ha hb
+    · rw [ancestors_of_not_lt hp] at ha; cases ha
+
+theorem ancestors_lt_size {t : T} (hf : Forest t) {a j : Nat} (h : a ∈ ancestors t j) : j < t.size := by
+  by_cases hp : parentOf t j < j
+  · apply Classical.byContradiction
+    intro hj
+    have : t.parents.length ≤ j := by have := hf.1; simp only [T.size] at hj; omega
+    simp [parentOf, List.getD_eq_getElem?_getD, List.getElem?_eq_none this] at hp
+  · rw [ancestors_of_not_lt hp] at h; cases h
+
+
+/-! ## part 3: sorting helpers -/
+
+theorem insertAsc_append {x : Nat} {l : List Nat} (h : ∀ y ∈ l, y < x) : insertAsc x l = l ++ [x] := by
+  induction l with
+  | nil => rfl
+  | cons y ys ih =>
+    have hy := h y (by simp)
+    have : ¬ x < y := by omega
+    have : ¬ x = y := by omega
+    simp [insertAsc, *]
+    exact ih (fun z hz => h z (by simp [hz]))
+
+/-- `sorted(set(l))` of a strictly descending list is its reversal -/
+theorem sortDedup_desc {l : List Nat} (h : l.Pairwise (· > ·)) : sortDedup l = l.reverse := by
+  induction l with
+  | nil => rfl
+  | cons x xs ih =>
+    have hx := List.pairwise_cons.mp h
+    simp only [sortDedup, List.foldr_cons] at ih ⊢
+    rw [ih hx.2, List.reverse_cons]
+    exact insertAsc_append (fun y hy => hx.1 y (List.mem_reverse.mp hy))
+
+theorem insertKeep_perm (x : Nat) (l : List Nat) : (insertKeep x l).Perm (x :: l) := by
+  induction l with
+  | nil => exact List.Perm.refl _
+  | cons y ys ih =>
+    simp only [insertKeep]
+    split
+    · exact List.Perm.refl _
+    · exact ((List.Perm.cons y ih).trans (List.Perm.swap x y ys))
+
+theorem sortKeep_perm (l : List Nat) : (sortKeep l).Perm l := by
+  induction l with
+  | nil => exact List.Perm.refl _
+  | cons x xs ih =>
+    simp only [sortKeep, List.foldr_cons] at ih ⊢
+    exact (insertKeep_perm x _).trans (List.Perm.cons x ih)
+
+theorem mem_sortKeep {l : List Nat} {x : Nat} : x ∈ sortKeep l ↔ x ∈ l := (sortKeep_perm l).mem_iff
+
+theorem insertKeep_sorted {x : Nat} {l : List Nat} (h : l.Pairwise (· ≤ ·)) :
+    (insertKeep x l).Pairwise (· ≤ ·) := by
+  induction l with
+  | nil => simp [insertKeep]
+  | cons y ys ih =>
+    have hy := List.pairwise_cons.mp h
+    simp only [insertKeep]
+    split
+    · rename_i hxy
+      refine List.pairwise_cons.mpr ⟨?_, h⟩
+      intro b hb
+      rcases List.mem_cons.mp hb with rfl | hb
+      · exact hxy
+      · have := hy.1 b hb; omega
+    · rename_i hxy
+      refine List.pairwise_cons.mpr ⟨?_, ih hy.2⟩
+      intro b hb
+      rcases List.mem_cons.mp ((insertKeep_perm x ys).mem_iff.mp hb) with rfl | hb
+      · omega
+      · exact hy.1 b hb
+
+theorem sortKeep_sorted (l : List Nat) : (sortKeep l).Pairwise (· ≤ ·) := by
+  induction l with
+  | nil => exact List.Pairwise.nil
+  | cons x xs ih => exact insertKeep_sorted ih
+
+/-- `sorted` of a duplicate-free list is strictly ascending -/
+theorem sortKeep_strict {l : List Nat} (h : l.Nodup) : (sortKeep l).Pairwise (· < ·) := by
+  have h1 := sortKeep_sorted l
+  have h2 : (sortKeep l).Nodup := (sortKeep_perm l).nodup_iff.mpr h
+  generalize sortKeep l = s at h1 h2
+  induction s with
+  | nil => exact List.Pairwise.nil
+  | cons x xs ih =>
+    have a := List.pairwise_cons.mp h1
+    have b := List.pairwise_cons.mp h2
+    refine List.pairwise_cons.mpr ⟨?_, ih a.2 b.2⟩
+    intro y hy
+    have := a.1 y hy; have := b.1 y hy; omega
+
+/-- `sorted` of an ascending list is that list -/
+theorem sortKeep_id {l : List Nat} (h : l.Pairwise (· ≤ ·)) : sortKeep l = l := by
+  induction l with
+  | nil => rfl
+  | cons x xs ih =>
+    have hx := List.pairwise_cons.mp h
+    simp only [sortKeep, List.foldr_cons] at ih ⊢
+    rw [ih hx.2]
+    cases xs with
+    | nil => rfl
+    | cons y ys => simp [insertKeep, hx.1 y (by simp)]
+
+theorem nodup_flatMap {α β : Type} {l : List α} {f : α → List β} (hl : l.Nodup)
+    (hf : ∀ x ∈ l, (f x).Nodup)
+    (hd : ∀ x ∈ l, ∀ y ∈ l, ∀ z, z ∈ f x → z ∈ f y → x = y) : (l.flatMap f).Nodup := by
+  induction l with
+  | nil => simp
+  | cons a as ih =>
+    have ha := List.pairwise_cons.mp hl
+    rw [List.flatMap_cons, List.nodup_append]
+    refine ⟨hf a (by simp), ih ha.2 (fun x hx => hf x (by simp [hx]))
+      (fun x hx y hy => hd x (by simp [hx]) y (by simp [hy])), ?_⟩
+    intro z hz w hw hzw
+    subst hzw
+    obtain ⟨y, hy, hzy⟩ := List.mem_flatMap.mp hw
+    have := hd a (by simp) y (by simp [hy]) z hz hzy
+    exact ha.1 y hy this
+
+/-! ## all_parents -/
+
+theorem allParentsFuel_eq {t : T} (hf : Forest t) (fuel i : Nat) (h : i ≤ fuel ∨ parentOf t i = i) :
+    allParentsFuel t fuel i = ancestors t i := by
+  induction fuel generalizing i with
+  | zero =>
+    have hp := parentOf_le_of_forest hf i
+    rw [ancestors_of_not_lt (by omega)]; rfl
+  | succ fuel ih =>
+    have hp := parentOf_le_of_forest hf i
+    simp only [allParentsFuel]
+    split
+    · rw [ancestors_of_not_lt (by omega)]
+    · rename_i hne
+      rw [ancestors_of_lt (by omega), ih _ (by omega)]
+
+theorem allParentsFuel_size {t : T} (hf : Forest t) (i : Nat) :
+    allParentsFuel t t.size i = ancestors t i := by
+  apply allParentsFuel_eq hf
+  by_cases hi : i < t.size
+  · exact .inl (by omega)
+  · right
+    have : t.parents.length ≤ i := by have := hf.1; simp only [T.size] at hi; omega
+    simp [parentOf, List.getD_eq_getElem?_getD, List.getElem?_eq_none this]
+
+theorem allParents_eq {t : T} (hf : Forest t) (i : Nat) : allParents t i = (ancestors t i).reverse := by
+  rw [allParents, allParentsFuel_size hf, sortDedup_desc (ancestors_desc t i)]
+
+/-! ## all_children -/
+
+theorem allChildrenFuel_sound {t : T} (hf : Forest t) (fuel : Nat) {i j : Nat}
+    (h : j ∈ allChildrenFuel t fuel i) : i ∈ ancestors t j := by
+  induction fuel generalizing i with
+  | zero => simp [allChildrenFuel] at h
+  | succ fuel ih =>
+    simp only [allChildrenFuel, List.mem_flatMap, List.mem_cons] at h
+    obtain ⟨c, hc, hj⟩ := h
+    obtain ⟨_, hpc, hne⟩ := mem_children.mp hc
+    have hle := parentOf_le_of_forest hf c
+    have hic : i ∈ ancestors t c := by
+      rw [ancestors_of_lt (by omega), hpc]; simp
+    rcases hj with rfl | hj
+    · exact hic
+    · exact ancestors_trans hic (ih hj)
+
+theorem allChildrenFuel_complete {t : T} (hf : Forest t) (fuel : Nat) {i j : Nat}
+    (h : i ∈ ancestors t j) (hfuel : j ≤ fuel + i) : j ∈ allChildrenFuel t fuel i := by
+  induction fuel generalizing i with
+  | zero => have := ancestors_lt h; omega
+  | succ fuel ih =>
+    obtain ⟨c, hc1, hc2, hc3⟩ := ancestors_child h
+    have hj := ancestors_lt_size hf h
+    simp only [allChildrenFuel, List.mem_flatMap, List.mem_cons]
+    have hcj : c ≤ j := by
+      rcases hc3 with rfl | hc3
+      · exact Nat.le_refl _
+      · exact Nat.le_of_lt (ancestors_lt hc3)
+    refine ⟨c, mem_children.mpr ⟨by omega, hc1, by omega⟩, ?_⟩
+    rcases hc3 with rfl | hc3
+    · exact .inl rfl
+    · exact .inr (ih hc3 (by omega))
+
+theorem allChildrenFuel_nodup {t : T} (hf : Forest t) (fuel i : Nat) : (allChildrenFuel t fuel i).Nodup := by
+  induction fuel generalizing i with
+  | zero => simp [allChildrenFuel]
+  | succ fuel ih =>
+    simp only [allChildrenFuel]
+    refine nodup_flatMap (nodup_of_sorted (children_sorted t i)) ?_ ?_
+    · intro c _
+      refine List.nodup_cons.mpr ⟨?_, ih c⟩
+      intro hc
+      have := ancestors_lt (allChildrenFuel_sound hf fuel hc); omega
+    · intro c hc c' hc' z hz hz'
+      obtain ⟨_, hpc, hne⟩ := mem_children.mp hc
+      obtain ⟨_, hpc', hne'⟩ := mem_children.mp hc'
+      have hle := parentOf_le_of_forest hf c
+      have hle' := parentOf_le_of_forest hf c'
+      have key : ∀ {a b : Nat}, parentOf t a = i → a ≠ i → parentOf t b = i → b ≠ i → a ∈ ancestors t b → False := by
+        intro a b ha hai hb hbi hab
+        have hlb := parentOf_le_of_forest hf b
+        rw [ancestors_of_lt (by omega), hb] at hab
+        have hla := parentOf_le_of_forest hf a
+        rcases List.mem_cons.mp hab with h | h
+        · exact hai h
+        · have := ancestors_lt h; omega
+      have hz1 : z = c ∨ c ∈ ancestors t z := by
+        rcases List.mem_cons.mp hz with h | h
+        · exact .inl h
+        · exact .inr (allChildrenFuel_sound hf fuel h)
+      have hz2 : z = c' ∨ c' ∈ ancestors t z := by
+        rcases List.mem_cons.mp hz' with h | h
+        · exact .inl h
+        · exact .inr (allChildrenFuel_sound hf fuel h)
+      rcases hz1 with rfl | hz1 <;> rcases hz2 with rfl | hz2
+      · rfl
+      · exact (key hpc' hne' hpc hne hz2).elim
+      · exact (key hpc hne hpc' hne' hz1).elim
+      · rcases ancestors_linear hz1 hz2 with h | h | h
+        · exact h
+        · exact (key hpc hne hpc' hne' h).elim
+        · exact (key hpc' hne' hpc hne h).elim
+
+theorem mem_allChildren {t : T} (hf : Forest t) {i j : Nat} : j ∈ allChildren t i ↔ i ∈ ancestors t j := by
+  rw [allChildren, mem_sortKeep]
+  constructor
+  · exact allChildrenFuel_sound hf _
+  · intro h
+    have := ancestors_lt_size hf h
+    exact allChildrenFuel_complete hf _ h (by omega)
+
+theorem allChildren_sorted {t : T} (hf : Forest t) (i : Nat) : (allChildren t i).Pairwise (· < ·) :=
+  sortKeep_strict (allChildrenFuel_nodup hf _ i)
+
+/-! ## lineage, geneology, family_endpoint, siblings -/
+
+theorem allParents_sorted {t : T} (hf : Forest t) (i : Nat) : (allParents t i).Pairwise (· < ·) := by
+  rw [allParents_eq hf, List.pairwise_reverse]
+  exact (ancestors_desc t i).imp (fun h => h)
+
+theorem mem_allParents {t : T} (hf : Forest t) {i a : Nat} : a ∈ allParents t i ↔ a ∈ ancestors t i := by
+  rw [allParents_eq hf, List.mem_reverse]
+
+theorem allChildren_nil_of_children_nil {t : T} {i : Nat} (h : children t i = []) : allChildren t i = [] := by
+  unfold allChildren
+  cases t.size with
+  | zero => rfl
+  | succ n => simp [allChildrenFuel, h, sortKeep]
+
+/-- parents, the line, descendants — in this order — is strictly ascending -/
+theorem family_sorted {t : T} (hf : Forest t) (i : Nat) :
+    (allParents t i ++ [i] ++ allChildren t i).Pairwise (· < ·) := by
+  rw [List.pairwise_append, List.pairwise_append]
+  refine ⟨⟨allParents_sorted hf i, by simp, ?_⟩, allChildren_sorted hf i, ?_⟩
+  · intro a ha b hb
+    have := ancestors_lt ((mem_allParents hf).mp ha)
+    simp at hb; omega
+  · intro a ha b hb
+    have hb' := ancestors_lt ((mem_allChildren hf).mp hb)
+    rcases List.mem_append.mp ha with ha | ha
+    · have := ancestors_lt ((mem_allParents hf).mp ha); omega
+    · simp at ha; omega
+
+theorem lineage_eq {t : T} (hf : Forest t) (i : Nat) :
+    lineage t i = allParents t i ++ [i] ++ allChildren t i := by
+  have h : (if (children t i).isEmpty then [] else allChildren t i) = allChildren t i := by
+    split
+    · rename_i he
+      rw [allChildren_nil_of_children_nil (List.isEmpty_iff.mp he)]
+    · rfl
+  rw [lineage, h]
+  exact sortKeep_id ((family_sorted hf i).imp (fun h => Nat.le_of_lt h))
+
+theorem getLast?_sorted_max {l : List Nat} (h : l.Pairwise (· < ·)) {m : Nat} (hm : l.getLast? = some m) :
+    m ∈ l ∧ ∀ x ∈ l, x ≤ m := by
+  refine ⟨List.mem_of_getLast? hm, ?_⟩
+  obtain ⟨ys, rfl⟩ := List.getLast?_eq_some_iff.mp hm
+  intro x hx
+  rcases List.mem_append.mp hx with hx | hx
+  · have := (List.pairwise_append.mp h).2.2 x hx m (by simp); omega
+  · simp at hx; omega
+
+theorem familyEndpoint_max {t : T} (hf : Forest t) (i : Nat) :
+    familyEndpoint t i ∈ i :: allChildren t i ∧ ∀ j ∈ i :: allChildren t i, j ≤ familyEndpoint t i := by
+  unfold familyEndpoint
+  cases hl : (allChildren t i).getLast? with
+  | none =>
+    have : allChildren t i = [] := List.getLast?_eq_none_iff.mp hl
+    simp [this]
+  | some m =>
+    obtain ⟨h1, h2⟩ := getLast?_sorted_max (allChildren_sorted hf i) hl
+    have him := ancestors_lt ((mem_allChildren hf).mp h1)
+    simp only [Option.getD_some]
+    refine ⟨List.mem_cons_of_mem _ h1, ?_⟩
+    intro j hj
+    rcases List.mem_cons.mp hj with rfl | hj
+    · omega
+    · exact h2 j hj
+
+theorem mem_siblings {t : T} {i j : Nat} :
+    j ∈ siblings t i ↔ j < t.size ∧ parentOf t j = parentOf t i ∧ j ≠ parentOf t i ∧ indentOf t j = indentOf t i := by
+  simp only [siblings, List.mem_filter, mem_children, beq_iff_eq]
+  constructor
+  · rintro ⟨⟨a, b, c⟩, d⟩; exact ⟨a, b, c, d⟩
+  · rintro ⟨a, b, c, d⟩; exact ⟨⟨a, b, c⟩, d⟩
+
+theorem siblings_sorted (t : T) (i : Nat) : (siblings t i).Pairwise (· < ·) :=
+  List.Pairwise.filter _ (children_sorted t _)
+
+/-! ## extras -/
+
+/-- strictly ascending lists with the same members are equal -/
+theorem sorted_ext {l₁ l₂ : List Nat} (h₁ : l₁.Pairwise (· < ·)) (h₂ : l₂.Pairwise (· < ·))
+    (h : ∀ x, x ∈ l₁ ↔ x ∈ l₂) : l₁ = l₂ := by
+  induction l₁ generalizing l₂ with
+  | nil =>
+    cases l₂ with
+    | nil => rfl
+    | cons b bs => exact absurd ((h b).mpr (by simp)) (by simp)
+  | cons a as ih =>
+    cases l₂ with
+    | nil => exact absurd ((h a).mp (by simp)) (by simp)
+    | cons b bs =>
+      have ha := List.pairwise_cons.mp h₁
+      have hb := List.pairwise_cons.mp h₂
+      have hab : a = b := by
+        rcases List.mem_cons.mp ((h a).mp (by simp)) with e | e
+        · exact e
+        · rcases List.mem_cons.mp ((h b).mpr (by simp)) with e' | e'
+          · exact e'.symm
+          · have := ha.1 b e'; have := hb.1 a e; omega
+      subst hab
+      congr 1
+      apply ih ha.2 hb.2
+      intro x
+      constructor
+      · intro hx
+        have := ha.1 x hx
+        rcases List.mem_cons.mp ((h x).mp (List.mem_cons_of_mem _ hx)) with e | e
+        · omega
+        · exact e
+      · intro hx
+        have := hb.1 x hx
+        rcases List.mem_cons.mp ((h x).mpr (List.mem_cons_of_mem _ hx)) with e | e
+        · omega
+        · exact e
+
+/-- `all_children` as a list: the lines having `i` on their ancestor chain, in line order -/
+theorem allChildren_eq_filter {t : T} (hf : Forest t) (i : Nat) :
+    allChildren t i = (List.range t.size).filter (fun j => decide (i ∈ ancestors t j)) := by
+  apply sorted_ext (allChildren_sorted hf i) (List.Pairwise.filter _ List.pairwise_lt_range)
+  intro j
+  rw [mem_allChildren hf, List.mem_filter, List.mem_range]
+  constructor
+  · intro h; exact ⟨ancestors_lt_size hf h, by simpa using h⟩
+  · intro h; simpa using h.2
+
+/-- the chain ends at a root -/
+theorem ancestors_last_root {t : T} (hf : Forest t) {j r : Nat} (h : (ancestors t j).getLast? = some r) :
+    parentOf t r = r := by
+  induction j using Nat.strongRecOn with
+  | ind j ih =>
+    by_cases hp : parentOf t j < j
+    · rw [ancestors_of_lt hp] at h
+      by_cases hpp : parentOf t (parentOf t j) < parentOf t j
+      · rw [ancestors_of_lt hpp, List.getLast?_cons_cons, ← ancestors_of_lt hpp] at h
+        exact ih _ hp h
+      · rw [ancestors_of_not_lt hpp] at h
+        simp at h
+        have := parentOf_le_of_forest hf (parentOf t j)
+        subst h; omega
+    · rw [ancestors_of_not_lt hp] at h; simp at h
+
+theorem children_count (t : T) (i j : Nat) :
+    (children t i).count j = if j < t.size ∧ parentOf t j = i ∧ j ≠ i then 1 else 0 := by
+  rw [(nodup_of_sorted (children_sorted t i)).count]
+  simp only [mem_children]
 
 end Ccp.Tree
